@@ -109,4 +109,68 @@ def Obj.new (T : Tables) (key : List UInt8) : Obj := ⟨keyExpansion T key⟩
 def Obj.cipher (T : Tables) (o : Obj) (block : List UInt8) : List UInt8 := transpose (cipherMat T o.w (transpose block))
 def Obj.invCipher (T : Tables) (o : Obj) (block : List UInt8) : List UInt8 := transpose (invCipherMat T o.w (transpose block))
 
+/-! ### histories on ONE object (round 8, lesson g).
+The object caches the expanded key schedule `w[11][4][4]` exactly as the code lays it out: `w[i][r][c]` is entry `4*r+c` of
+`wAt o.w i`, and `w[0][r][c] = key[r + 4*c]` — i.e. the 16 bytes of `w[0]` READ LINEARLY (what a `memcmp(w[0], key, 16)` sees) are
+the TRANSPOSE of the cipher key, not the key. -/
+
+/-- round key `i` as it lies in memory (`(uint8_t*)w[i]`, row-major) -/
+def Obj.memRow (o : Obj) (i : Nat) : List UInt8 := wAt o.w i
+/-- round key `i` in FIPS-197 order (words = columns); for `i = 0` this is the cipher key -/
+def Obj.memCol (o : Obj) (i : Nat) : List UInt8 := transpose (wAt o.w i)
+
+/-- a call on the object -/
+inductive Op
+  | setKey (key : List UInt8)
+  | enc (block : List UInt8)
+  | dec (block : List UInt8)
+  deriving DecidableEq, Repr
+
+/-- one call: the object afterwards and what the call stored in `output` -/
+def Obj.step (T : Tables) (o : Obj) : Op → Obj × Option (List UInt8)
+  | .setKey k => (o.setKey T k, none)
+  | .enc b => (o, some (o.cipher T b))
+  | .dec b => (o, some (o.invCipher T b))
+
+/-- a history of calls on one object: the outputs in call order -/
+def Obj.run (T : Tables) : Obj → List Op → List (List UInt8)
+  | _, [] => []
+  | o, op :: r =>
+    match o.step T op with
+    | (o', some out) => out :: Obj.run T o' r
+    | (o', none) => Obj.run T o' r
+
+/-- every key and block of a history is 16 bytes long (the API's precondition) -/
+def Op.wf : Op → Bool
+  | .setKey k => k.length = 16
+  | .enc b => b.length = 16
+  | .dec b => b.length = 16
+
+/-- reference semantics of a history, for block functions `E` / `D` given from outside (instantiated with the independent FIPS-197
+definitions of Spec.lean): every output is the block function under the LAST key installed before the call -/
+def refRun (E D : List UInt8 → List UInt8 → List UInt8) : List UInt8 → List Op → List (List UInt8)
+  | _, [] => []
+  | _, .setKey k :: r => refRun E D k r
+  | k, .enc b :: r => E k b :: refRun E D k r
+  | k, .dec b :: r => D k b :: refRun E D k r
+
+/-- two objects used in turns (`true` = object B): the outputs in call order, tagged with the object -/
+def runTwo (T : Tables) : Obj → Obj → List (Bool × Op) → List (Bool × List UInt8)
+  | _, _, [] => []
+  | a, b, (w, op) :: r =>
+    match (if w then b else a).step T op with
+    | (o', some out) => (w, out) :: (if w then runTwo T a o' r else runTwo T o' b r)
+    | (o', none) => if w then runTwo T a o' r else runTwo T o' b r
+
+/-- the calls made on one of the two objects / the outputs it produced -/
+def projOps (w : Bool) (s : List (Bool × Op)) : List Op := (s.filter (fun x => x.1 = w)).map (·.2)
+def outsOf (w : Bool) (r : List (Bool × List UInt8)) : List (List UInt8) := (r.filter (fun x => x.1 = w)).map (·.2)
+
+/-- `setKey` with an "unchanged key? then skip the expansion" shortcut that compares the key with the MEMORY IMAGE of `w[0]`
+(`memcmp(w[0], key, 16) == 0`: the shortcut of seeded change C19-6) -/
+def Obj.setKeySkipMem (T : Tables) (o : Obj) (key : List UInt8) : Obj := if o.memRow 0 = key then o else ⟨keyExpansion T key⟩
+
+/-- the same shortcut comparing in the right order (`w[0][r][c] == key[r + 4*c]` for all r, c) -/
+def Obj.setKeySkipCol (T : Tables) (o : Obj) (key : List UInt8) : Obj := if o.memCol 0 = key then o else ⟨keyExpansion T key⟩
+
 end Tbox.C19.Aes
